@@ -126,6 +126,7 @@ func flatten(t types.Type) []Comp {
 }
 
 func flatten0(t types.Type) []Comp {
+	t = norm(t)
 	if unitType(t) {
 		return nil
 	}
@@ -199,6 +200,7 @@ func (u unsupportedErr) Error() string        { return u.msg }
 
 // toTerms flattens a value of type t to its scalar components (in flatten order).
 func toTerms(v Value, t types.Type) []Term {
+	t = norm(t)
 	if unitType(t) {
 		return nil
 	}
@@ -261,6 +263,7 @@ func toTerms(v Value, t types.Type) []Term {
 
 // fromTerms rebuilds a value of type t from scalar components; returns the rest.
 func fromTerms(ts []Term, t types.Type) (Value, []Term) {
+	t = norm(t)
 	if unitType(t) {
 		return VStruct{}, ts
 	}
